@@ -23,6 +23,57 @@ WTR_SPEC = """
 """
 
 
+NQ_SRC = "turtle/src/serializer/nq.rs"
+
+STMT_NT_SPEC = """
+    ensures
+        r is Ok ==> (*final(w)).written() == (*old(w)).written() + fmt_triple(t[0].tv(), t[1].tv(), t[2].tv()) + seq![46u8, 10u8],
+"""
+STMT_NQ_SPEC = """
+    ensures
+        // one statement per line; the graph name is written only for named-graph quads
+        r is Ok ==> (*final(w)).written() == (*old(w)).written() + fmt_triple(tr[0].tv(), tr[1].tv(), tr[2].tv())
+            + (match gn { None => Seq::<u8>::empty(), Some(g) => seq![32u8] + fmt_term(g.tv()) }) + seq![46u8, 10u8],
+"""
+
+
+def _lines_between(src, start_re, end_re, what):
+    lines = src.split("\n")
+    st = [i for i, l in enumerate(lines) if re.search(start_re, l)]
+    if len(st) != 1:
+        raise rsx.LostAnchor("%s: start anchor %r: %d hits" % (what, start_re, len(st)))
+    en = [i for i, l in enumerate(lines) if i > st[0] and re.search(end_re, l)]
+    if not en:
+        raise rsx.LostAnchor("%s: end anchor %r not found" % (what, end_re))
+    return "\n".join(lines[st[0] + 1:en[0]])
+
+
+def statement_fns(repo, info):
+    """R7: the bodies of the per-statement closures of serialize_triples (nt.rs) and serialize_quads (nq.rs) -- the
+    lines between `let w = &mut self.write;` / `let (tr, gn) = q.spog();` and the closing brace before `.map_err` --
+    lifted verbatim into functions taking the closure's bindings as parameters."""
+    nt = open(os.path.join(repo, SRC)).read()
+    nq = open(os.path.join(repo, NQ_SRC)).read()
+    body_nt = _lines_between(nt, r"let w = &mut self\.write;", r"^\s*\}\s*$", "serialize_triples closure")
+    body_nq = _lines_between(nq, r"let \(tr, gn\) = q\.spog\(\);", r"^\s*\.map_err\(", "serialize_quads closure")
+    # the nq block ends with the brace closing the inner block: drop it
+    body_nq = body_nq.rstrip()
+    if not body_nq.endswith("}"):
+        raise rsx.LostAnchor("serialize_quads closure: unexpected block end")
+    body_nq = body_nq[:-1].rstrip()
+    info["cuts"][SRC + "::serialize_triples (statement closure body)"] = rsx.sha(body_nt)
+    info["cuts"][NQ_SRC + "::serialize_quads (statement closure body)"] = rsx.sha(body_nq)
+    info["rewrites"]["R7 closure body lifted to a function"] = 2
+    ax = rsx.literal_axioms(body_nt + body_nq)
+    info["assumptions"] += ["L1: " + a for a in ax if ("L1: " + a) not in info["assumptions"]]
+    axs = "    proof { " + " ".join(ax) + " }\n"
+    f_nt = ("pub fn nt_statement<W, T>(w: &mut W, t: [T; 3]) -> (r: io::Result<()>)\nwhere\n    W: io::Write,\n    T: Term,\n"
+            + STMT_NT_SPEC + "{\n" + axs + "    let ghost w0 = (*w).written();\n" + body_nt + "\n}\n")
+    f_nq = ("pub fn nq_statement<W, T>(w: &mut W, tr: [T; 3], gn: Option<T>) -> (r: io::Result<()>)\nwhere\n    W: io::Write,\n    T: Term,\n"
+            + STMT_NQ_SPEC + "{\n" + axs + body_nq + "\n}\n")
+    return f_nt + "\n" + f_nq
+
+
 def build(repo, canary=None):
     e = esc.build(repo)
     src = open(os.path.join(repo, SRC)).read()
@@ -68,9 +119,17 @@ def build(repo, canary=None):
     if canary == "always_suffix":
         # vacuity canary: a grammar that always writes the datatype suffix must be refuted
         spec = spec.replace("if dt == xsd_string() { seq![34u8] + esc(lex) + seq![34u8] }", "if false { seq![34u8] + esc(lex) + seq![34u8] }")
-    text = e["text"].replace("\n} // verus!\nfn main() {}\n", "\nuse TermKind::*;\n" + spec + "\n" + wtr + "\n\n" + wt + "\n} // verus!\nfn main() {}\n")
+    stm = ""
+    try:
+        stm = statement_fns(repo, info)
+        info["statements"] = True
+    except rsx.LostAnchor as ex:
+        info["statements"] = False
+        info["statements_lost"] = str(ex)
+    text = e["text"].replace("\n} // verus!\nfn main() {}\n", "\nuse TermKind::*;\n" + spec + "\n" + wtr + "\n\n" + wt + "\n\n" + stm + "\n} // verus!\nfn main() {}\n")
     info["text"] = text
-    info["expect_functions"] = ["write_term", "write_triple", "write_triple_arr", "quoted_string"]
+    info["l1_sources"] = list(e.get("l1_sources", [])) + [wt, wtr, stm]
+    info["expect_functions"] = ["write_term", "write_triple", "write_triple_arr", "quoted_string"] + (["nt_statement", "nq_statement"] if stm else [])
     info["assumptions"] += [
         "R0 stand-in trait Term: each accessor used by write_term (kind, iri, bnode_id, variable, lexical_form, language_tag, datatype, to_triple) returns the corresponding component of the term's abstract value TermV",
         "R0 stand-in trait Triple for [T; 3] with borrowed components; ne_xsd_string decides equality with the xsd:string IRI",
